@@ -591,19 +591,33 @@ func monitorsBusy() int {
 // settle waits until every goroutine an event woke has finished: the controller lock is free and every monitoring
 // goroutine is parked.  The generous deadline only turns a wedged controller into a diagnosis.
 func (cl *cluster) settle() {
-	deadline := time.Now().Add(20 * time.Second)
-	for {
+	if cl.cfg.RealMon {
+		cl.settleReal("the last event")
+		return
+	}
+	// the deadline is a diagnosis for a controller that never becomes quiescent, not a timing oracle: it is generous
+	// and the polling backs off (every poll stops the world for the goroutine dump; on an oversubscribed machine a
+	// tight loop can keep the very goroutines it waits for from running - seen once under a load of 60 on 16 cores)
+	deadline := time.Now().Add(90 * time.Second)
+	for i := 0; ; i++ {
 		if monitorsBusy() == 0 && cl.c.VerifCanonicalOrderIfFree() {
 			return
 		}
 		if time.Now().After(deadline) {
 			buf := make([]byte, 1<<16)
 			n := runtime.Stack(buf, true)
-			cl.violate("wedged", "controller-wedged", "controller did not become quiescent within 20 s\n"+string(buf[:n]))
+			cl.violate("wedged", "controller-wedged", "controller did not become quiescent within 90 s\n"+string(buf[:n]))
 			return
 		}
 		runtime.Gosched()
-		time.Sleep(20 * time.Microsecond)
+		switch {
+		case i < 200:
+			time.Sleep(20 * time.Microsecond)
+		case i < 2000:
+			time.Sleep(200 * time.Microsecond)
+		default:
+			time.Sleep(2 * time.Millisecond)
+		}
 	}
 }
 
@@ -612,7 +626,7 @@ func (cl *cluster) settle() {
 // listed replica is in mode ERR, then until the controller's goroutines are parked.  The deadline only turns a replica
 // that is never removed into a diagnosis.
 func (cl *cluster) settleReal(what string) {
-	deadline := time.Now().Add(15 * time.Second)
+	deadline := time.Now().Add(60 * time.Second)
 	for {
 		pending := "(controller lock held)"
 		if v, ok := cl.c.VerifViewIfFree(); ok {
@@ -627,10 +641,10 @@ func (cl *cluster) settleReal(what string) {
 			return
 		}
 		if time.Now().After(deadline) {
-			cl.violate("err-replica-lingers", "err-replica-lingers", fmt.Sprintf("after %s replica %s is still listed in mode ERR after 15 s with the real monitor goroutines running: nothing removes it", what, pending))
+			cl.violate("err-replica-lingers", "err-replica-lingers", fmt.Sprintf("after %s replica %s is still listed in mode ERR after 60 s with the real monitor goroutines running: nothing removes it", what, pending))
 			return
 		}
-		time.Sleep(50 * time.Microsecond)
+		time.Sleep(200 * time.Microsecond)
 	}
 }
 
